@@ -2,6 +2,9 @@
 package c17
 
 import (
+	"testing/iotest"
+	"io"
+	"bufio"
 	"bytes"
 	"encoding/base64"
 	"encoding/binary"
@@ -46,6 +49,9 @@ type Case struct {
 	Format  string    `json:"format"`
 	WStream bool      `json:"w_stream"`
 	RStream bool      `json:"r_stream"`
+	// RKind: the dynamic type of the stream source (when RStream): 0 *bytes.Reader, 1 an opaque io.Reader (no Len,
+	// no other method), 2 one byte per Read, 3 *bufio.Reader, 4 *bytes.Buffer, 5 two readers chained
+	RKind int `json:"r_kind,omitempty"`
 	Corr    *Corr     `json:"corr,omitempty"`
 	Pad     int       `json:"pad,omitempty"` // that many more (simple, distinct) delegations in the set: sizes around the CBOR list-head boundaries
 }
@@ -59,7 +65,7 @@ func padTokens(n int) []tok.Tok {
 	return out
 }
 
-var corrKinds = []string{"relabel-as-other-entry", "relabel-as-other-entry", "duplicate-section", "flip-in-token", "wrong-key", "truncate-entry", "mislabel", "zero-section", "oversize-section", "other-codec-cid", "flip-anywhere", "drop-last-byte", "truncate-at", "append-byte"}
+var corrKinds = []string{"relabel-as-other-entry", "relabel-as-other-entry", "duplicate-section", "flip-in-token", "wrong-key", "truncate-entry", "mislabel", "zero-section", "oversize-section", "other-codec-cid", "flip-anywhere", "drop-last-byte", "truncate-at", "append-byte", "cbor-lower-count"}
 
 func write(w container.Writer, format string, stream bool) ([]byte, error) {
 	if !stream {
@@ -89,7 +95,11 @@ func write(w container.Writer, format string, stream bool) ([]byte, error) {
 	return buf.Bytes(), err
 }
 
-func read(b []byte, format string, stream bool) (container.Reader, error) {
+type opaqueReader struct{ r io.Reader }
+
+func (o opaqueReader) Read(p []byte) (int, error) { return o.r.Read(p) }
+
+func read(b []byte, format string, stream bool, kind ...int) (container.Reader, error) {
 	if !stream {
 		switch format {
 		case "car":
@@ -102,7 +112,21 @@ func read(b []byte, format string, stream bool) (container.Reader, error) {
 			return container.FromCborBase64(b)
 		}
 	}
-	r := bytes.NewReader(b)
+	var r io.Reader = bytes.NewReader(b)
+	if len(kind) > 0 {
+		switch kind[0] % 6 {
+		case 1:
+			r = opaqueReader{bytes.NewReader(b)}
+		case 2:
+			r = iotest.OneByteReader(bytes.NewReader(b))
+		case 3:
+			r = bufio.NewReaderSize(bytes.NewReader(b), 16)
+		case 4:
+			r = bytes.NewBuffer(append([]byte{}, b...))
+		case 5:
+			r = io.MultiReader(bytes.NewReader(b[:len(b)/2]), bytes.NewReader(b[len(b)/2:]))
+		}
+	}
 	switch format {
 	case "car":
 		return container.FromCarReader(r)
@@ -294,6 +318,25 @@ func run(c *h.Ctx, cs Case) {
 			if len(out) > 0 {
 				out = out[:len(out)-1]
 			}
+		case "cbor-lower-count":
+			// the CBOR container's list announces one entry fewer than follow: the last entry is left over
+			if !isCar {
+				raw := out
+				if isB64 {
+					raw, _ = base64.StdEncoding.DecodeString(string(out))
+				}
+				// a1 66 "ctn-v1" <list head>: the head sits at offset 8
+				if len(raw) > 9 && raw[0] == 0xa1 && raw[8] > 0x80 && raw[8] <= 0x97 {
+					raw = append([]byte{}, raw...)
+					raw[8]--
+					mustFail = true
+					if isB64 {
+						out = []byte(base64.StdEncoding.EncodeToString(raw))
+					} else {
+						out = raw
+					}
+				}
+			}
 		case "truncate-at":
 			// the container ends early, at any offset (in the base64 forms: of the text)
 			if len(out) > 0 {
@@ -326,7 +369,7 @@ func run(c *h.Ctx, cs Case) {
 	}
 	var rd container.Reader
 	var rerr error
-	if pn, pv, _ := h.Try(func() { rd, rerr = read(out, cs.Format, cs.RStream) }); pn {
+	if pn, pv, _ := h.Try(func() { rd, rerr = read(out, cs.Format, cs.RStream, cs.RKind) }); pn {
 		c.P.PanicSeen()
 		c.Fail("C17/read-panic/"+cs.Format, "reader panicked: %v", pv)
 		return
@@ -468,6 +511,9 @@ func draw(t *rapid.T) Case {
 	cs.Format = rapid.SampledFrom(ctr.Formats).Draw(t, "format")
 	cs.WStream = rapid.Bool().Draw(t, "ws")
 	cs.RStream = rapid.Bool().Draw(t, "rs")
+	if cs.RStream {
+		cs.RKind = rapid.IntRange(0, 5).Draw(t, "rkind")
+	}
 	if rapid.IntRange(0, 2).Draw(t, "corrupt") == 0 {
 		cs.Corr = &Corr{Kind: rapid.SampledFrom(corrKinds).Draw(t, "ck"), Entry: rapid.IntRange(0, 5).Draw(t, "ce"), Off: rapid.IntRange(0, 5000).Draw(t, "co"), Bit: rapid.IntRange(0, 7).Draw(t, "cb")}
 	}
@@ -501,6 +547,11 @@ func TestVariantMatrix(t *testing.T) {
 						}
 						for e := 0; e < len(set); e++ {
 							prop.One(t, Case{Toks: set, Order: []int{0}, Format: f, WStream: ws, RStream: rs, Corr: &Corr{Kind: ck, Entry: e, Off: 3}})
+							if rs {
+								for rk := 1; rk <= 5; rk++ {
+									prop.One(t, Case{Toks: set, Order: []int{0}, Format: f, WStream: ws, RStream: rs, RKind: rk, Corr: &Corr{Kind: ck, Entry: e, Off: 3}})
+								}
+							}
 						}
 					}
 				}
@@ -512,10 +563,15 @@ func TestVariantMatrix(t *testing.T) {
 		for _, f := range ctr.Formats {
 			for _, rs := range []bool{false, true} {
 				for off := 0; off < 1500; off++ {
-					prop.One(t, Case{Toks: set, Order: []int{0}, Format: f, RStream: rs, Corr: &Corr{Kind: "truncate-at", Off: off}})
+					prop.One(t, Case{Toks: set, Order: []int{0}, Format: f, RStream: rs, RKind: off % 6, Corr: &Corr{Kind: "truncate-at", Off: off}})
 				}
 				for b := 0; b < 256; b++ {
-					prop.One(t, Case{Toks: set, Order: []int{0}, Format: f, RStream: rs, Corr: &Corr{Kind: "append-byte", Off: b}})
+					prop.One(t, Case{Toks: set, Order: []int{0}, Format: f, RStream: rs, RKind: b % 6, Corr: &Corr{Kind: "append-byte", Off: b}})
+					if rs && b%16 == 10 {
+						for rk := 0; rk < 6; rk++ {
+							prop.One(t, Case{Toks: set, Order: []int{0}, Format: f, RStream: rs, RKind: rk, Corr: &Corr{Kind: "append-byte", Off: b}})
+						}
+					}
 				}
 			}
 		}
